@@ -197,23 +197,6 @@ func parseGoInt(s string) (int64, bool) {
 	return i, true
 }
 
-// c16HidingReifier presents a loaded map without its first entry and a loaded list without its first element.
-func c16HidingReifier(_ linking.LinkContext, n datamodel.Node, _ *linking.LinkSystem) (datamodel.Node, error) {
-	v, err := core.ReadNode(n)
-	if err != nil {
-		return n, nil
-	}
-	switch {
-	case v.K == '{' && len(v.M) > 0:
-		v.M = v.M[1:]
-	case v.K == '[' && len(v.L) > 0:
-		v.L = v.L[1:]
-	default:
-		return n, nil
-	}
-	return core.BuildBasic(v, nil)
-}
-
 func c16Case(c *core.Ctx, r *core.Rand, idx int, lines *[]string, impls *[]string) error {
 	g, err := core.GenGraph(r, r.Intn(5))
 	if err != nil {
@@ -253,7 +236,7 @@ func c16Case(c *core.Ctx, r *core.Rand, idx int, lines *[]string, impls *[]strin
 	if r.Chance(1, 3) {
 		// a reifier that shows every block differently from its stored form (first entry / element hidden): the
 		// transform works on what is stored and stores what it rebuilt, so the reifier must not show in the result
-		lsys.NodeReifier = c16HidingReifier
+		lsys.NodeReifier = core.HidingReifier
 		c.Dist("focused:with-node-reifier")
 	}
 	lsys.StorageWriteOpener = func(linking.LinkContext) (io.Writer, linking.BlockWriteCommitter, error) {
